@@ -54,6 +54,7 @@ class TOPDirector(SectionLineParser):
         self.force_field = topology.force_field
         self.topology = topology
         self.current_meta = None
+        self.current_tag_defined = False
         self.current_itp = None
         self.itp_lines = []
         # the lines of the molecules directive of an included file continue the
@@ -182,6 +183,9 @@ class TOPDirector(SectionLineParser):
                 condition, tag = line.split()
                 self.current_meta = {'tag': tag,
                                      'condition': condition.replace("#", "")}
+                # the condition is decided here and not at the lines it
+                # encloses, which may (re)define the tag themselves
+                self.current_tag_defined = tag in self.topology.defines
             elif self.current_meta is not None:
                 raise IOError("Your {} section is orderd incorrectly."
                               "At line {} I read {} but there is still"
@@ -406,12 +410,12 @@ class TOPDirector(SectionLineParser):
            # has not been defined previously. Thus the
            # error is not triggered.
            if self.current_meta["condition"] == "ifdef"\
-              and self.current_meta["tag"] not in self.topology.defines:
+              and not self.current_tag_defined:
                  return
            # the #error file is enlosed in an #ifndef
            # so if tag is defined, we ignore this #error
            elif self.current_meta["condition"] == "ifndef"\
-              and self.current_meta["tag"] in self.topology.defines:
+              and self.current_tag_defined:
                  return
         # we remove the #error
         msg = line[7:]
@@ -443,12 +447,12 @@ class TOPDirector(SectionLineParser):
            # however tag is not in defines we have
            # read so the file is not read
            if self.current_meta["condition"] == "ifdef"\
-              and self.current_meta["tag"] not in self.topology.defines:
+              and not self.current_tag_defined:
                  return
            # the current file is between ifndef
            # so if tag is defined we ignore this file
            elif self.current_meta["condition"] == "ifndef"\
-              and self.current_meta["tag"] in self.topology.defines:
+              and self.current_tag_defined:
                  return
 
         if self.cwdir:
